@@ -217,9 +217,28 @@ class Canon:
         return s
 
 
-def cls_name(o):
-    b = o.__xpmtype__.basetype
-    return f"{b.__module__}:{b.__qualname__}"
+def defining_file(b):
+    """the file whose execution created class `b` (code object of a method defined in its body), or None"""
+    import types
+    for v in vars(b).values():
+        if isinstance(v, types.FunctionType):
+            return v.__code__.co_filename
+    return None
+
+
+def type_key(t, canon):
+    """class identity as `load_objects` resolves it: `module:qualname` for a class of a package,
+    `<defining file>:qualname` for a class of a plain script / top-level module (recorded with "file")"""
+    b = t.basetype
+    t.arguments  # initialises the type (module / package / file detection)
+    if getattr(t, "_package", None):
+        return f"{b.__module__}:{b.__qualname__}"
+    f = defining_file(b) or str(t._file)
+    return f"{canon.path(str(f))}:{b.__qualname__}"
+
+
+def cls_name(o, canon=None):
+    return type_key(o.__xpmtype__, canon or Canon("/nonexistent-xv"))
 
 
 def model_val(v, index, canon):
@@ -257,24 +276,26 @@ def node_json(o, index, canon):
                      "default": model_val(a.default, index, canon), "value": model_val(x.values.get(name), index, canon)})
         if (name in x.values) != (x.values.get(name) is not None or not a.required):
             raise RuntimeError(f"presence invariant of the model broken for {name}")
-    return {"typeId": hx(o.__xpmtype__.identifier.name), "cls": hx(cls_name(o)), "args": args,
+    return {"typeId": hx(o.__xpmtype__.identifier.name), "cls": hx(cls_name(o, canon)), "args": args,
             "task": None if x.task is None else index.get(id(x.task), -1), "meta": x.meta, "sealed": bool(x._sealed),
             "pre": [index.get(id(p), -1) for p in x.pre_tasks], "init": [index.get(id(p), -1) for p in x.init_tasks]}
 
 
 def lib_line(mod, lib, canon):
+    return types_line([getattr(mod, c["name"]).__getxpmtype__() for c in lib["classes"]], canon)
+
+
+def types_line(types, canon):
     """class templates: declared arguments with the state after the parameter-less __init__"""
     classes = []
-    for c in lib["classes"]:
-        k = getattr(mod, c["name"])
-        t = k.__getxpmtype__()
+    for t in types:
         args = []
         for name, a in t.arguments.items():
             init = a.default if a.default is not None else None
             args.append({"name": hx(name), "ignored": bool(a.ignored), "generator": a.generator is not None,
                          "constant": bool(a.constant), "required": bool(a.required),
                          "default": model_val(a.default, {}, canon), "value": model_val(init, {}, canon)})
-        classes.append({"name": hx(f"{t.basetype.__module__}:{t.basetype.__qualname__}"), "typeId": hx(t.identifier.name),
+        classes.append({"name": hx(type_key(t, canon)), "typeId": hx(t.identifier.name),
                         "args": args, "data": [hx(n) for n, a in t.arguments.items() if a.is_data]})
     return {"op": "lib", "classes": classes}
 
@@ -317,7 +338,7 @@ def canon_defs(defs, idmap, canon):
         extra = set(d) - KNOWN_DEF_KEYS
         if extra:
             raise RuntimeError(f"definition has members unknown to the model: {sorted(extra)}")
-        out.append({"id": idmap.get(d["id"], -1), "cls": hx(f"{d['module']}:{d['type']}"),
+        out.append({"id": idmap.get(d["id"], -1), "cls": hx(f"{canon.path(d['file'])}:{d['type']}" if "file" in d else f"{d['module']}:{d['type']}"),
                     "fields": [[hx(k), canon_j(v, idmap, canon)] for k, v in d["fields"].items()],
                     "pre": [idmap.get(i, -1) for i in d["pre-tasks"]] if "pre-tasks" in d else None,
                     "init": [idmap.get(i, -1) for i in d["init-tasks"]] if "init-tasks" in d else None,
@@ -1108,6 +1129,261 @@ def run_witness(mod, lib, case, root, canon, datadir):
     return rec
 
 
+# ----------------------------------------------------------------- classes that do not live in a package
+
+
+FILES_DEFS = """
+from experimaestro import Config, Param
+
+
+class Settings(Config):
+    __xpmid__ = "xvfiles.@TAG@.settings"
+    x: Param[int]
+    name: Param[str] = "@TAG@"
+
+    def origin(self):
+        return "@TAG@"
+
+
+class Only@CAP@(Config):
+    __xpmid__ = "xvfiles.@TAG@.only"
+    y: Param[int]
+    s: Param[str] = "d"
+
+    def origin(self):
+        return "@TAG@"
+"""
+
+FILES_TRAIN = FILES_DEFS + """
+
+if __name__ == "__main__":
+    import sys
+    from pathlib import Path
+    from experimaestro import save
+    out = Path(sys.argv[1])
+    for name, c in (("Settings", Settings(x=int(sys.argv[2]))), ("Only", Only@CAP@(y=int(sys.argv[2]) + 1))):
+        (out / name).mkdir(parents=True)
+        save(c, out / name)
+"""
+
+FILES_EVAL = FILES_DEFS + """
+from typing import List, Dict
+from experimaestro import Task
+
+
+class Holder(Task):
+    __xpmid__ = "xvfiles.@TAG@.holder"
+    items: Param[List[Config]]
+    first: Param[Config]
+    d: Param[Dict[str, Config]]
+
+    def origin(self):
+        return "@TAG@"
+
+    def execute(self):
+        pass
+
+
+if __name__ == "__main__":
+    import sys
+    from xv.impl import serial_worker
+    serial_worker.files_stage2(sys.argv[1], globals())
+"""
+
+FILES_LOADER = """
+import sys
+from xv.impl import serial_worker
+serial_worker.files_stage3(sys.argv[1])
+"""
+
+
+def describe_files(top, canon):
+    """objects reachable from `top` (configurations or runtime objects), numbered by first visit:
+    defining file and qualified name of the class, what its code answers, values, identifier"""
+    index, order = {}, []
+
+    def ref(o):
+        if id(o) not in index:
+            index[id(o)] = len(order)
+            order.append(o)
+        return index[id(o)]
+
+    def plain(v):
+        if isinstance(v, list):
+            return [plain(x) for x in v]
+        if isinstance(v, dict):
+            return {k: plain(x) for k, x in v.items()}
+        if hasattr(v, "__xpmtype__"):
+            return {"ref": ref(v)}
+        return str(v) if isinstance(v, Path) else v
+
+    ref(top)
+    out, i = [], 0
+    while i < len(order):
+        o = order[i]
+        i += 1
+        is_cfg_obj = "__xpm__" in vars(o)
+        base = next(k for k in type(o).__mro__ if "origin" in vars(k))
+        vals = dict(o.__xpm__.values) if is_cfg_obj else {n: vars(o)[n] for n in o.__xpmtype__.arguments if n in vars(o)}
+        ident = o.__xpm__.full_identifier.all.hex() if is_cfg_obj else o.__xpmidentifier__.all.hex()
+        out.append({"file": canon.path(base.origin.__code__.co_filename), "qualname": base.__qualname__, "origin": o.origin(),
+                    "values": {n: plain(vals[n]) for n in sorted(vals)}, "identifier": ident})
+    return out
+
+
+def files_stage2(spec_path, g):
+    """runs inside evaluate.py (a plain script, `__main__`): builds a graph whose classes come from
+    train.py (loaded; module `_main_`), evaluate.py (`__main__`), dirA/defs.py and dirB/defs.py (two plain
+    modules both named `defs`), and writes it through every entry point"""
+    import importlib
+    from experimaestro import load, save
+    from experimaestro.core.context import SerializationContext
+    from experimaestro.core import serialization
+    spec = json.loads(Path(spec_path).read_text())
+    root = Path(spec["root"])
+    canon = Canon(root)
+    canon.repl = [(str(root), "/XVROOT")]
+    pool = {}
+    for k in ("Settings", "Only"):
+        pool["train." + k] = load(root / "saved" / k)
+    for tag in ("a", "b"):
+        sys.path.insert(0, str(root / ("dir" + tag.upper())))
+        sys.modules.pop("defs", None)
+        importlib.invalidate_caches()
+        m = importlib.import_module("defs")
+        sys.path.pop(0)
+        # instances are created while `defs` still is this file (experimaestro reads the file of a class lazily)
+        pool[tag + ".Settings"] = m.Settings(x=spec["x"][tag])
+        pool[tag + ".Only"] = getattr(m, "Only" + tag.upper())(y=spec["x"][tag] + 1)
+    pool["eval.Settings"] = g["Settings"](x=spec["x"]["eval"])
+    pool["eval.Only"] = g["OnlyEval"](y=spec["x"]["eval"] + 1, s="own")
+    top = g["Holder"](items=[pool[k] for k in spec["order"]], first=pool[spec["first"]],
+                      d={k.replace(".", "_"): pool[k] for k in spec["dict"]})
+    out = root / "out"
+    out.mkdir()
+    expected = describe_files(top, canon)
+    defs = json.loads(top.__json__())
+    (out / "defs.json").write_text(json.dumps(defs))
+    (out / "state.json").write_text(json.dumps(serialization.state_dict(SerializationContext(), {"t": top, "l": [top.first]})))
+    (out / "saved").mkdir()
+    save(top, out / "saved")
+    # model lines: library = the classes of the reachable objects, graph, definition list
+    objs = reachable_all(top)[::-1]
+    objs.sort(key=lambda o: 0 if o is top else 1)
+    index = {id(o): i for i, o in enumerate(objs)}
+    types = []
+    for o in objs:
+        if not any(t is o.__xpmtype__ for t in types):
+            types.append(o.__xpmtype__)
+    lines = [types_line(types, canon), {"op": "graph", "nodes": [node_json(o, index, canon) for o in objs]}, {"op": "serialize", "roots": [0]}]
+    impl = [{"ok": True}, {"ok": True}, {"defs": canon_defs(defs, index, canon)}]
+    (out / "stage2.json").write_text(json.dumps({"expected": expected, "lines": lines, "impl": impl,
+                                                 "idmap": {str(k): v for k, v in index.items()},
+                                                 "orig": top.__xpm__.full_identifier.all.hex()}))
+
+
+def files_stage3(spec_path):
+    """runs in a fresh interpreter that defines none of the classes: load what stage 2 wrote"""
+    from experimaestro import load
+    from experimaestro.core import serialization
+    from experimaestro.core.objects import ConfigInformation
+    spec = json.loads(Path(spec_path).read_text())
+    root = Path(spec["root"])
+    canon = Canon(root)
+    canon.repl = [(str(root), "/XVROOT")]
+    out = root / "out"
+    st2 = json.loads((out / "stage2.json").read_text())
+    defs = json.loads((out / "defs.json").read_text())
+    routes = {
+        "save -> load": lambda: load(out / "saved"),
+        "__json__ -> fromParameters(as_instance=False)": lambda: ConfigInformation.fromParameters(json.loads(json.dumps(defs)), as_instance=False),
+        "__json__ -> fromParameters(as_instance=True)": lambda: ConfigInformation.fromParameters(json.loads(json.dumps(defs)), as_instance=True),
+        "state_dict -> from_state_dict": lambda: serialization.from_state_dict(json.loads((out / "state.json").read_text()), Path("/"))["t"],
+    }
+    res = {}
+    for name, fn in routes.items():
+        try:
+            res[name] = {"desc": describe_files(fn(), canon)}
+        except Exception as e:
+            res[name] = {"error": f"{type(e).__name__}: {e}"}
+    idmap = {int(k): v for k, v in st2["idmap"].items()}
+    try:
+        objects = ConfigInformation.load_objects(json.loads(json.dumps(defs)), as_instance=False)
+        reload_out = {"objs": loaded_json(objects, defs, idmap, canon)}
+        rid = {"id": objects[defs[-1]["id"]].__xpm__.full_identifier.all.hex(), "orig": st2["orig"]}
+    except Exception as e:
+        reload_out = {"err": err_kind(e)}
+        rid = {"err": err_kind(e)}
+    (out / "stage3.json").write_text(json.dumps({"routes": res, "reload": reload_out, "reid": rid}))
+
+
+def run_files(mod, lib, case, root, canon, datadir):
+    """classes defined in plain scripts / top-level modules: two script files both run as `__main__`
+    (hence both registered as `_main_` by the loader) and two files `defs.py` in different directories,
+    with same-named (`Settings`) and differently-named (`OnlyX`) classes; written by one process, loaded by a fresh one"""
+    import subprocess
+    rec = {"lines": [], "impl": [], "monitors": [], "stats": {}}
+
+    def mon(key, what, detail=None):
+        rec["monitors"].append({"key": key, "what": what, "detail": detail})
+
+    PROC_COUNTER[0] += 1
+    froot = root / f"files{PROC_COUNTER[0]}"
+    for d in ("scripts", "scripts2", "dirA", "dirB"):
+        (froot / d).mkdir(parents=True)
+
+    def fill(t, tag, cap):
+        return t.replace("@TAG@", tag).replace("@CAP@", cap)
+    (froot / "scripts" / "train.py").write_text(fill(FILES_TRAIN, "train", "Train"))
+    (froot / "scripts2" / "evaluate.py").write_text(fill(FILES_EVAL, "eval", "Eval"))
+    (froot / "dirA" / "defs.py").write_text(fill(FILES_DEFS, "a", "A"))
+    (froot / "dirB" / "defs.py").write_text(fill(FILES_DEFS, "b", "B"))
+    (froot / "loader.py").write_text(FILES_LOADER)
+    spec = dict(case["spec"])
+    spec["root"] = str(froot)
+    (froot / "spec.json").write_text(json.dumps(spec))
+    env = dict(os.environ)
+    env["PYTHONWARNINGS"] = "ignore"
+    stages = [[str(froot / "scripts" / "train.py"), str(froot / "saved"), str(spec["x"]["train"])],
+              [str(froot / "scripts2" / "evaluate.py"), str(froot / "spec.json")],
+              [str(froot / "loader.py"), str(froot / "spec.json")]]
+    for si, cmd in enumerate(stages):
+        p = subprocess.run([sys.executable] + cmd, env=env, capture_output=True, text=True, timeout=300, cwd=str(froot))
+        if p.returncode != 0:
+            if si == 1 and "load(" in p.stderr:
+                mon("files:load-raises", f"a script could not load what another script saved: {p.stderr.strip().splitlines()[-1][:300]}", {"stage": si})
+                return rec
+            raise RuntimeError(f"files scenario: stage {si + 1} failed: {p.stderr[-1500:]}")
+    st2 = json.loads((froot / "out" / "stage2.json").read_text())
+    st3 = json.loads((froot / "out" / "stage3.json").read_text())
+    rec["lines"] = st2["lines"] + [{"op": "reload", "roots": [0]}, {"op": "reid", "root": 0}]
+    rec["impl"] = st2["impl"] + [st3["reload"], st3["reid"]]
+    exp = st2["expected"]
+    files = sorted({n["file"] for n in exp})
+    rec["stats"]["files"] = str(len(files))
+    for route, r in st3["routes"].items():
+        if "error" in r:
+            mon("files:load-raises", f"{route} in a fresh process, classes from {files}: {r['error'][:300]}", {"route": route})
+            continue
+        got = r["desc"]
+        if len(got) != len(exp):
+            mon("files:structure", f"{route}: {len(got)} objects reloaded for {len(exp)} written", {"route": route})
+            continue
+        for k, (a, b) in enumerate(zip(exp, got)):
+            if (a["file"], a["qualname"], a["origin"]) != (b["file"], b["qualname"], b["origin"]):
+                mon("files:class", f"{route}: object {k} configured with class {a['qualname']} of {a['file']} was rebuilt with class "
+                    f"{b['qualname']} of {b['file']} (its code answers {b['origin']!r} instead of {a['origin']!r})", {"route": route})
+                break
+            if a["values"] != b["values"]:
+                mon("files:value", f"{route}: object {k} ({a['qualname']} of {a['file']}): values {b['values']} instead of {a['values']}", {"route": route})
+                break
+            if a["identifier"] != b["identifier"]:
+                mon("files:identifier", f"{route}: object {k} ({a['qualname']} of {a['file']}): identifier {b['identifier'][:12]}… instead of {a['identifier'][:12]}…",
+                    {"route": route})
+                break
+    return rec
+
+
 PROC_COUNTER = [0]
 
 
@@ -1212,7 +1488,7 @@ def main():
             mod, lib = mods[case["lib"]], data["libs"][case["lib"]]
             canon = Canon(datadir)
             try:
-                fn = {"c12": run_c12, "c13": run_c13, "witness": run_witness, "proc": run_proc}[case["kind"]]
+                fn = {"c12": run_c12, "c13": run_c13, "witness": run_witness, "proc": run_proc, "files": run_files}[case["kind"]]
                 rec = fn(mod, lib, case, root, canon, datadir)
                 rec["error"] = None
             except Exception as e:
